@@ -19,7 +19,7 @@ def run(pid, tier):
     jobs = [dict(kind="small", inst=i) for i in insts]
     P = presets.all_presets()
     real = [("ARG", "net_baseline"), ("DJI", "net_nuclear_winter"), ("USA", "ms_worst"), ("EST", "net_nuclear_resilient"), ("IND", "ms_example_res"),
-            ("WOR", "net_nuclear_winter"), ("NZL", "ms_simple_ration"), ("JPN", "net_nuclear_resilient_more_area")]
+            ("WOR", "net_nuclear_winter"), ("WOR", "net_nuclear_resilient"), ("NZL", "ms_simple_ration"), ("JPN", "net_nuclear_resilient_more_area")]
     if tier != "quick":
         import csv
         with open(os.path.join(C.REPO, "data/no_food_trade/computer_readable_combined.csv")) as fh:
